@@ -89,6 +89,9 @@ type vsCase struct {
 	Choices []vsChoice `json:"choices"`
 	NoDrain bool       `json:"nodrain"`
 	Via     string     `json:"via"` // "direct": Scheduler.GetRunner; "sr": the real Server.scheduleRunner (routes.go)
+	// probability with which a load parked in WaitUntilRunning is kept parked while anything else can happen
+	// (class join-during-load: later requests for the model are dequeued while the first load is in flight)
+	HoldLoad float64 `json:"hold_load"`
 }
 
 type vsStep struct {
@@ -614,7 +617,17 @@ func (r *vsRun) muName(m *vhMutex) string {
 
 func (r *vsRun) randomChoice() (vsChoice, bool) {
 	c := r.c
-	ints := r.internalOpts()
+	all := r.internalOpts()
+	ints := all
+	if c.HoldLoad > 0 && r.rng.Float64() < c.HoldLoad {
+		var rest []vsOpt
+		for _, o := range all {
+			if o.g.Site != "mock.wait" {
+				rest = append(rest, o)
+			}
+		}
+		ints = rest
+	}
 	// group the internal options by goroutine, then pick an alternative
 	if len(ints) > 0 && r.rng.Float64() < c.PInt {
 		names := []string{}
@@ -672,8 +685,8 @@ func (r *vsRun) randomChoice() (vsChoice, bool) {
 		w = append(w, 1.5)
 	}
 	if len(env) == 0 {
-		if len(ints) > 0 {
-			return ints[r.rng.Intn(len(ints))].c, true
+		if len(all) > 0 {
+			return all[r.rng.Intn(len(all))].c, true
 		}
 		return vsChoice{}, false
 	}
